@@ -2,7 +2,7 @@
 from __future__ import annotations
 
 import ast
-from typing import List, Optional, Set, Tuple
+from typing import Dict, List, Optional, Set, Tuple
 
 from ..cfg import handler_catches_all
 from ..effects import Effects
@@ -271,6 +271,74 @@ def rule_pureid(ctx) -> None:
             ctx.check(ok, "C19.PUREID", f"{f.qual}/hash-inputs", f.loc(), "the id hashes agent, turn, slot and text", f"the id hash input is {sorted(hashed)}")
 
 
+def rule_no_shared_state(ctx) -> None:
+    """'fixture missing -> nothing is written' has to hold for every history in one process: the LLM fixture adapter and the
+    reflection backends keep no state shared between constructions / calls (no class-level or module-level container that a
+    method fills), and the adapter's constructor reaches a normal return only after it tested that the fixture file exists"""
+    mods = ["clematis.adapters.llm", "clematis.engine.stages.t3.reflect", "clematis.engine.orchestrator.reflection"]
+    n_cls = 0
+    for mn in mods:
+        m = ctx.prog.module(mn)
+        ctx.analysed_modules.add(mn)
+        mutable_ctor = lambda v: isinstance(v, (ast.Dict, ast.List, ast.Set, ast.DictComp, ast.ListComp, ast.SetComp)) or (
+            isinstance(v, ast.Call) and (dotted(v.func) or "").split(".")[-1] in ("dict", "list", "set", "defaultdict", "OrderedDict", "deque", "Counter"))
+        shared: Dict[str, Set[str]] = {}  # class name ("" = module) -> attribute / global names holding a mutable container
+        for st in m.tree.body:
+            if isinstance(st, (ast.Assign, ast.AnnAssign)) and st.value is not None and mutable_ctor(st.value):
+                for t in (st.targets if isinstance(st, ast.Assign) else [st.target]):
+                    if isinstance(t, ast.Name) and not t.id.isupper() and not t.id.startswith("__all"):
+                        shared.setdefault("", set()).add(t.id)
+            if isinstance(st, ast.ClassDef):
+                n_cls += 1
+                for cs in st.body:
+                    if isinstance(cs, (ast.Assign, ast.AnnAssign)) and cs.value is not None and mutable_ctor(cs.value):
+                        for t in (cs.targets if isinstance(cs, ast.Assign) else [cs.target]):
+                            if isinstance(t, ast.Name):
+                                shared.setdefault(st.name, set()).add(t.id)
+        for fn in m.funcs.values():
+            cls = fn.cls.name if getattr(fn, "cls", None) is not None and hasattr(fn.cls, "name") else (fn.qual.split(":")[1].split(".")[0] if "." in fn.qual.split(":")[1] else "")
+            for x in walk_no_defs(fn.node):
+                tgt = None
+                if isinstance(x, (ast.Assign, ast.AugAssign)):
+                    for t in (x.targets if isinstance(x, ast.Assign) else [x.target]):
+                        if isinstance(t, ast.Subscript):
+                            tgt = t.value
+                elif isinstance(x, ast.Call) and isinstance(x.func, ast.Attribute) and x.func.attr in ("append", "extend", "add", "update", "setdefault", "insert", "pop", "clear", "popitem", "remove"):
+                    tgt = x.func.value
+                if tgt is None:
+                    continue
+                hit = None
+                if isinstance(tgt, ast.Attribute) and isinstance(tgt.value, ast.Name) and tgt.value.id in ("self", "cls", cls) and tgt.attr in shared.get(cls, set()):
+                    # an instance attribute of the same name assigned in __init__ shadows the class attribute
+                    init = m.funcs.get(f"{cls}.__init__")
+                    shadow = init is not None and any(isinstance(y, (ast.Assign, ast.AnnAssign)) and any(
+                        isinstance(t, ast.Attribute) and src(t) == f"self.{tgt.attr}" for t in (y.targets if isinstance(y, ast.Assign) else [y.target])) for y in walk_no_defs(init.node))
+                    if not shadow or tgt.value.id != "self":
+                        hit = f"{cls}.{tgt.attr}"
+                elif isinstance(tgt, ast.Name) and tgt.id in shared.get("", set()) and not ctx.rd(fn).is_local(tgt.id):
+                    hit = tgt.id
+                if hit:
+                    ctx.violation("C19.FAIL", f"{fn.qual}/shared-state:{hit}", fn.loc(x),
+                                  f"`{src(x)[:50]}` fills `{hit}`, a container shared by every adapter / call in the process: a later reflection is answered from state left by an earlier one "
+                                  "(a fixture that has gone missing is still served, so 'missing fixture -> nothing written' fails)")
+    ctx.floor("C19.FAIL", "classes on the reflection backend path", n_cls, 3)
+    init = ctx.func("clematis.adapters.llm:FixtureLLMAdapter.__init__")
+    cfg = ctx.cfg(init)
+    exists = [n for n in cfg.nodes if n.kind == "cond" and "exists()" in src(n.ast)]
+    p = cfg.path([cfg.entry], lambda x: x is cfg.exit, avoid=lambda x: x in exists, edge_ok=no_exc) if exists else [cfg.entry]
+    # the 'missing' side of the test must not reach a normal return
+    if p is None:
+        for e in exists:
+            neg = isinstance(e.ast, ast.UnaryOp) and isinstance(e.ast.op, ast.Not) or (isinstance(e.ast, ast.BoolOp) and any(isinstance(v, ast.UnaryOp) and isinstance(v.op, ast.Not) and "exists()" in src(v) for v in e.ast.values))
+            missing = [t for t, l in e.succ if l == ("T" if neg else "F")]
+            q = cfg.path(missing, lambda x: x is cfg.exit, edge_ok=no_exc)
+            if q is not None:
+                p = [e] + q
+    ctx.check(bool(exists) and p is None, "C19.FAIL", f"{init.qual}/exists-check-on-every-construction", init.loc(), "every construction tests that the fixture file exists before it can succeed",
+              "the adapter can be constructed although the fixture file does not exist (check skipped, or its 'missing' side returns normally)", ctx.path_witness(init, p) if p else None)
+    ctx.holds("C19.FAIL", "reflection-path/no-shared-containers", "clematis/adapters/llm.py", f"no class-level or module-level container is filled by a method in {mods}")
+
+
 def rule_iso(ctx) -> None:
     rt = ctx.func(RUN_TURN)
     cfg = ctx.cfg(rt)
@@ -379,6 +447,7 @@ def rule_fail(ctx) -> None:
 
 
 def run(ctx) -> None:
+    rule_no_shared_state(ctx)
     rule_gate(ctx)
     rule_fresh(ctx)
     rule_cap(ctx)
